@@ -66,6 +66,12 @@ def plan(tier, seed):
                dict(kind='autoref', nmax=5, init_vars=4, reordering=True,
                     reorder_starts=8),
                dict(kind='autoref', nmax=4, init_vars=4)]
+    for s_ in range(4 if tier == 'thorough' else 1):
+        specs.append(dict(kind='big', mode='many', seed=seed * 10 + s_,
+                          count=2600))
+    for s_ in range(8 if tier == 'thorough' else 2):
+        specs.append(dict(kind='big', mode='mux', seed=seed * 10 + s_,
+                          count=6 if s_ % 2 else 1))
     k = 16 if tier == 'thorough' else 8
     for s in range(k):
         ar = (s % 4 == 3)
@@ -125,7 +131,88 @@ def run_sets(spec, out):
     out.exhaustive = (spec['parts'] == 12)
 
 
+def run_big(spec, out):
+    """Managers far larger than those of the histories: thousands of
+    held functions (one swap turns thousands of nodes into garbage), and
+    multiplexer shapes for which moving one variable multiplies the
+    size."""
+    import random
+    import dd.bdd as _bdd
+    from .. import inv, tt
+    from ..denote import Den, Builder
+    from ..viol import require
+    r = random.Random(f'c07big:{spec["seed"]}:{spec["mode"]}')
+    case = dict(kind='big', mode=spec['mode'], seed=spec['seed'],
+                count=spec['count'])
+
+    def body():
+        if spec['mode'] == 'many':
+            n = 5
+            nm = fix.names(n)
+            b = fix.new_bdd(list(nm))
+            bd = Builder(b, nm)
+            tabs = r.sample(range(1 << 32), spec['count'])
+        else:
+            # f = ite(s, F, G), F and G over interleaved disjoint supports
+            n = 9
+            nm = fix.names(8) + ('s',)
+            order = ['s'] + list(nm[:8])
+            b = fix.new_bdd(order)
+            bd = Builder(b, nm)
+            tabs = []
+            F_ = tt.full(n)
+            for _ in range(spec['count']):
+                fa, ga = r.getrandbits(16), r.getrandbits(16)
+                tF = tG = 0
+                for m in range(1 << n):
+                    ev = sum(((m >> (2 * j)) & 1) << j for j in range(4))
+                    od = sum(((m >> (2 * j + 1)) & 1) << j for j in range(4))
+                    if (fa >> ev) & 1:
+                        tF |= 1 << m
+                    if (ga >> od) & 1:
+                        tG |= 1 << m
+                sv = tt.var(n, 8)
+                tabs.append(((sv & tF) | (~sv & tG)) & F_)
+        refs = [bd(t) for t in tabs]
+        led = {}
+        for u in refs:
+            b.incref(u)
+            led[abs(u)] = led.get(abs(u), 0) + 1
+        b.collect_garbage()
+
+        def same(what):
+            d = Den(b, nm)
+            for t, u in zip(tabs, refs):
+                require(abs(u) in b._succ and d(u) == t,
+                        'big.held_changed_function', dict(after=what))
+            inv.check_order(b)
+            inv.check_structure(b)
+            inv.check_counts(b, led)
+        nvars = len(b.vars)
+        for i in list(range(nvars - 1)) + list(range(nvars - 2, -1, -1)):
+            b.swap(i, i + 1)
+            same(f'swap({i},{i + 1})')
+        size0 = len(b)
+        _bdd.reorder(b)
+        require(len(b) <= size0, 'sift.grew',
+                dict(before=size0, after=len(b)))
+        same('sifting')
+        perm = list(b.vars)
+        r.shuffle(perm)
+        _bdd.reorder(b, {x: l for l, x in enumerate(perm)})
+        require([b.var_at_level(l) for l in range(nvars)] == perm,
+                'reorder_to.order_not_reached')
+        same('reorder to an order')
+        _bdd.reorder(b)
+        same('sifting again')
+    out.guard(case, body)
+    out.count(1, 1)
+    out.sample(case)
+
+
 def run(spec, out):
+    if spec['kind'] == 'big':
+        return run_big(spec, out)
     if spec['kind'] == 'sets':
         run_sets(spec, out)
     else:
@@ -133,4 +220,7 @@ def run(spec, out):
                      nontrivial)
 
 
-replay_into = H.replay_into
+def replay_into(case, out):
+    if case.get('kind') == 'big':
+        return run_big(dict(case, count=case.get('count', 2600 if case['mode'] == 'many' else 1)), out)
+    return H.replay_into(case, out)
